@@ -549,17 +549,24 @@ def schedulers(N, K):
 
 
 def make_cases(tier, seed):
+    """quick: one interruption point per configuration; thorough: three, all optimisers in float32 too"""
     rng = random.Random(seed)
     cases = []
+    for rnd in range(3 if tier == "thorough" else 1):
+        _batch(rng, tier, cases, "" if rnd == 0 else f"#{rnd + 1}")
+    return cases
 
+
+def _batch(rng, tier, cases, suffix):
     def add(c):
         c.setdefault("dtype", "float64")
         c["seed"] = rng.randrange(1, 10 ** 6)
         c["pseed"] = rng.randrange(1, 10 ** 6)
-        c["name"] = c["family"] + "-" + c["dtype"]
+        c["name"] = c["family"] + "-" + c["dtype"] + suffix
         cases.append(c)
 
-    N = rng.choice([4, 5, 6])
+    seed = rng.randrange(10 ** 6)
+    N = rng.choice([4, 5, 6] if not suffix else [2, 3, 7, 9])
     K = rng.choice([4, 5])
     sch = schedulers(N, K)
     for i, (nm, alg, opts) in enumerate(OPTIMISERS):
@@ -625,7 +632,6 @@ def make_cases(tier, seed):
         if tier == "thorough" or nm in ("scaler+slide+dirichlet", "hmc[AdaptiveStepSize+MassMatrixAdaptor]",
                                        "hmc[DualAveragingStepSize]"):
             add(dict(algo="mcmc", family=f"mcmc:{nm}", operators=ops, N=Nm, K=Km, dtype="float32"))
-    return cases
 
 
 # --------------------------------------------------------------------------- the property on observations
@@ -781,6 +787,10 @@ def evaluate(case, obs):
                           f"{cls}.load_state_dict leaves {f} (saved under '{k}') unrestored: {detail}", rp))
         return v, notes
     saved, rest = obs["saved"], obs["restored"]
+    if rest is None:
+        v.append((f"C17:restart-does-not-run:{fam}",
+                  f"{case['name']}: the restart neither raised nor reached run() (main() swallowed an error?)", rp))
+        return v, notes
     # ---- parameter tensors
     pa = {p["id"]: p for p in saved["params"]}
     pb = {p["id"]: p for p in rest["params"]}
@@ -826,7 +836,6 @@ def evaluate(case, obs):
     # ---- the run continued from the checkpoint
     A = dict(_rows(obs["A_traj"]))
     Cr = [r for r in _rows(obs["C_traj"]) if r[0] > 0]
-    want = [A[N + 1 + i] for i in range(K)]
     labels = [r[0] for r in Cr]
     depart = None
     for i, (lab, row) in enumerate(Cr):
@@ -1345,7 +1354,6 @@ def run(tier, seed, replay=None):
             if c["family"] in unc_heads and notes.get("depart") is not None:
                 X, h = unc_heads[c["family"]]
                 key = f"C17:state-not-saved:{X}:{h}"
-                o = obs[cases.index(c)]
                 found.setdefault(key, (key, f"{X} mutates self.{h} while running but state_dict() does not save it — "
                                             f"{c['name']}: the resumed run departs from the uninterrupted one at state "
                                             f"number {notes['depart'] + 1} after the restart", dict(case=c)))
@@ -1387,7 +1395,7 @@ def run(tier, seed, replay=None):
     # every table-level failure must be reproduced on the real code
     predicted = predicted_findings(info, *state["reps"]) if state["reps"] else []
     obs_keys = [k for k, _, _ in obs_f]
-    for key, what in predicted:
+    for key, what in ([] if replay else predicted):     # a replay drives one configuration only
         if not any(k == key or k == key.replace(".load_state_dict:", "._load_state_dict:")
                    or (key.endswith("spec=") and k.startswith(key)) for k in obs_keys):
             rep.violation("C17:unreproduced:" + key, what + " — not reproduced by any driven configuration",
@@ -1405,6 +1413,9 @@ def run(tier, seed, replay=None):
         O = pv_coq(sv["proj"])
         exprs.append(f"show_opt (save 4 all_tables {O})")
         index.append((ci, "save"))
+        # the encoder / decoder model against the file save_parameters really wrote
+        exprs.append(f"show_opt (json_rt {pv_coq(sv['sd'])})")
+        index.append((ci, "json"))
         ld = o.get("load")
         if ld and "s0" in ld:
             exprs.append(f"show_opt (checkpoint_roundtrip 4 all_tables {O} {pv_coq(ld['s0'])})")
@@ -1455,11 +1466,17 @@ def run(tier, seed, replay=None):
     mismatches = []
     validated = 0
     for (who, kind), z in zip(index, res):
-        if kind in ("save", "restore"):
+        if kind in ("save", "restore", "json"):
             c, o = cases[who], obs[who]
             vs, notes = evals[who]
             model = pv_parse(z)
-            if kind == "save":
+            if kind == "json":
+                from torchtree.core.utils import TensorDecoder
+                real = json.loads(o["checkpoint_text"], cls=TensorDecoder)[0]
+                real = {k: x for k, x in real.items() if k not in ("id", "type")}
+                d = pv_diff(pv_canon(model), pv_canon(pv_of(real)), "json")
+                what = f"{c['name']}: model json round trip vs the decoded checkpoint file: {d}"
+            elif kind == "save":
                 d = pv_diff(pv_canon(model), pv_canon(o["saved"]["sd"]), "state_dict()")
                 what = f"{c['name']}: model save vs real state_dict(): {d}"
             else:
@@ -1473,7 +1490,7 @@ def run(tier, seed, replay=None):
                     d = None
             validated += 1
             if d:
-                mismatches.append((f"C17:model-impl-differ:{kind}:{c['family']}", what, dict(case=c)))
+                mismatches.append((f"C17:model-impl-differ:{kind}", what, dict(case=c)))
         elif kind == "loop":
             k = who
             for ci, which in loop_exprs[k]:
@@ -1514,8 +1531,9 @@ def run(tier, seed, replay=None):
         if key in seen:
             continue
         seen.add(key)
+        n = sum(1 for k, _, _ in mismatches if k == key)
         rp = dict(rp, broken="correspondence M_ckpt/G_state vs implementation")
-        rep.violation(key, what, rp, False)
+        rep.violation(key, what + (f" (and {n - 1} more configurations)" if n > 1 else ""), rp, False)
 
     # ---- bookkeeping
     dist = {}
